@@ -101,6 +101,17 @@ var properties = map[string]*propSpec{
 		},
 		Assumptions: assume("the slice oracle is spec.SliceIndices, pinned to CPython's slice semantics by a digest over 33775 combinations (spec/slice_test.go)", "integers outside Go's int are ErrorInvalidArgument at parse time and out of the property's domain"),
 	},
+	"C15": {
+		Title: "Runtime errors name a real failing step: the deepest one, and the right kind",
+		Checks: []checkSpec{
+			{Test: "TestC15_Errors", Quick: 40000, Thorough: 600000, Rapid: true},
+		},
+		Assumptions: assume(specAssumption, "error text equality is modulo the spelling rules of DESIGN §3.3 (bare names after '..' and without '$', entries of a multi-name selector)"),
+		Floors: []floor{
+			{Check: "TestC15_Errors", Class: "nontrivial:depth>=2", Min: 0.15},
+			{Check: "TestC15_Errors", Class: "nontrivial:multi-failure", Min: 0.08},
+		},
+	},
 	"C17": {
 		Title: "The accepted language is the published grammar; syntax errors point at the spot",
 		Checks: []checkSpec{
